@@ -1711,6 +1711,11 @@ func (t *Topic) thisUserSub(sess *Session, pkt *ClientComMessage, asUid types.Ui
 			if !oldWant.IsJoiner() {
 				// Set permissions NO WORSE than default, but possibly better (admin or owner banned himself).
 				userData.modeWant = userData.modeGiven | t.accessFor(asLvl)
+				if t.owner != asUid {
+					// Ownership must be accepted explicitly (see ownerChange above), not picked up
+					// from a pending grant or from the default access.
+					userData.modeWant &^= types.ModeOwner
+				}
 			}
 		} else if userData.modeWant != modeWant {
 			// The user has provided a new modeWant and it' different from the one before
@@ -1911,7 +1916,8 @@ func (t *Topic) anotherUserSub(sess *Session, asUid, target types.Uid, asChan bo
 		if modeGiven == types.ModeUnset {
 			// Request to use default access mode for the new subscriptions.
 			// Assuming LevelAuth. Approver should use non-default access if that is not suitable.
-			modeGiven = t.accessFor(auth.LevelAuth)
+			// Ownership is never given by default.
+			modeGiven = t.accessFor(auth.LevelAuth) &^ types.ModeOwner
 			// Enable new subscription even if default is no joiner.
 			modeGiven |= types.ModeJoin
 		}
@@ -1926,8 +1932,8 @@ func (t *Topic) anotherUserSub(sess *Session, asUid, target types.Uid, asChan bo
 		}
 
 		if sub != nil {
-			// Existing deleted subscription.
-			modeWant = sub.ModeWant
+			// Existing deleted subscription. An offer of ownership must be accepted by the invitee.
+			modeWant = sub.ModeWant &^ types.ModeOwner
 		} else {
 			// Get user's default access mode to be used as modeWant
 			if user, err := store.Users.Get(target); err != nil {
@@ -1941,7 +1947,8 @@ func (t *Topic) anotherUserSub(sess *Session, asUid, target types.Uid, asChan bo
 				return nil, errors.New("user is suspended")
 			} else {
 				// Don't ask by default for more permissions than the granted ones.
-				modeWant = user.Access.Auth & modeGiven
+				// An offer of ownership must be accepted by the invitee.
+				modeWant = user.Access.Auth & modeGiven &^ types.ModeOwner
 			}
 		}
 
